@@ -1,3 +1,31 @@
 package sctp
 
-func c12EndToEnd(j *Job) {}
+import "fmt"
+
+// c12EndToEnd: the codec monitor (independent decoder, own decode + re-encode, mandatory
+// parameters) over every packet emitted in handshake, transfer, reset, shutdown and
+// heartbeat runs.
+func c12EndToEnd(j *Job) {
+	extraMon = monOpts{Codec: true}
+	defer func() { extraMon = monOpts{} }()
+	modes := stdModes()
+	var cases []xferCase
+	cases = append(cases, famW1(modes, []uint32{0, 6}, 1)...)
+	cases = append(cases, famW5(modes, 1)...)
+	cases = append(cases, famW2(modes[:2], 0)...)
+	runCases(j, cases, func(spec *xferSpec) func(m *Sim, x *Exec, r *xferResult) {
+		return deliveryFinal(spec, false, monOpts{Codec: true})
+	})
+	for mi, mode := range modes {
+		a, b := withBase(mode.A, 100, 0xFFFFFFFA, 4000), withBase(mode.B, 100, 0xFFFFFFF0, 4000)
+		j.Explore(fmt.Sprintf("codec/reset/%s", mode.Name), resetScenario(&resetSpec{A: a, B: b, SIDs: []uint16{5, 6}, Sizes: []int{10, 200, 11}, Cycles: 2,
+			Faults: allFaults, BackSizes: []int{12}}), Budget{K: 1}, nil)
+		j.Explore(fmt.Sprintf("codec/shutdown/%s", mode.Name), shutScenario(&shutSpec{A: a, B: b, Sizes: []int{60, 300, 61}, BSizes: []int{20, 21}, Crossed: mi % 3, Faults: allFaults}), Budget{K: 1}, nil)
+		j.Explore(fmt.Sprintf("codec/heartbeat/%s", mode.Name), c19Scenario(&c19Spec{kind: "heartbeat", rtoMax: 4000, il: !mode.A.NoInterleave}), Budget{K: 1}, nil)
+		for opt := 0; opt < 16; opt += 5 {
+			ha := epCfg{NoInterleave: opt&1 != 0, ZeroChecksum: opt&2 != 0, RTOMax: 4000, InitTSN: 0xFFFFFFFE, MTU: 228}
+			hb := epCfg{Server: mi != 1, NoInterleave: opt&4 != 0, ZeroChecksum: opt&8 != 0, RTOMax: 4000, InitTSN: 5, MTU: 228}
+			j.Explore(fmt.Sprintf("codec/handshake/%d/opt%d", mi, opt), hsScenario(&hsSpec{A: ha, B: hb, Faults: allFaults, Stale: true}), Budget{K: 1}, nil)
+		}
+	}
+}
